@@ -1073,6 +1073,6 @@ func (vc *VC) oblige(class, label, guard, formula, clause string, props []string
 // its antecedent is unreachable at all of them
 var siteRe = regexp.MustCompile(`#[0-9]+`)
 
-var guardCoverClasses = map[string]bool{"at-store": true, "at-call": true, "onk": true, "nok": true, "post": true, "inv-keep": true, "at-event": true, "pre@call": true}
+var guardCoverClasses = map[string]bool{"maintains": true, "at-store": true, "at-call": true, "onk": true, "nok": true, "post": true, "inv-keep": true, "at-event": true, "pre@call": true}
 
 var coverClasses = map[string]bool{"at-call": true, "onk": true, "nok": true, "post": true, "at-event": true}
